@@ -141,6 +141,16 @@ def inject(scratch_repo, modules, known_ids, intree_macros=False, grammar_deviat
         "a2lfile/src/verif_rt.rs (new, cfg(verif))"]
 
 
+SLOW = {"factor": 1.0}
+NOMINAL_MIR_S = 14.0      # MIR dump of the crate with all harness modules on the idle 16-core sandbox: 8-12 s
+
+
+def note_speed(mir_seconds):
+    """calibrate all time limits against the machine as it is right now (the dump is a fixed amount of work)"""
+    SLOW["factor"] = min(12.0, max(1.0, mir_seconds / NOMINAL_MIR_S))
+    return SLOW["factor"]
+
+
 def dump_mir(scratch):
     repo = os.path.join(scratch, "repo")
     out = os.path.join(scratch, "a2l.mir")
@@ -152,6 +162,7 @@ def dump_mir(scratch):
                            cwd=repo, env=C.env_offline(), stdout=f, stderr=e)
     if p.returncode != 0 or os.path.getsize(out) < 1000:
         raise RuntimeError("MIR dump failed:\n" + open(os.path.join(scratch, "mir.err")).read()[-3000:])
+    note_speed(time.time() - t0)
     return out, time.time() - t0
 
 
@@ -183,6 +194,7 @@ def run_native_batch(exe, scratch, cases, timeout=120):
     with open(bpath, "w") as f:
         for h, vals in cases:
             f.write("%s %s\n" % (h, ",".join(str(v) for v in vals)))
+    timeout = int(timeout * SLOW["factor"])
     env = dict(os.environ)
     env["VRT_BATCH"] = bpath
     env["RUST_BACKTRACE"] = "0"
@@ -284,12 +296,15 @@ mod verif_expand_a2l {
 def explore(scratch, mirpath, harness, procs, timeout, known, max_steps=2_000_000, export_smt=None):
     outdir = os.path.join(scratch, "e2out")
     os.makedirs(outdir, exist_ok=True)
+    timeout = int(timeout * SLOW["factor"])
     cmd = ["python3-vt", "-m", "mirsym.run", "--mir", mirpath, "--repo", os.path.join(scratch, "repo"), "--harness", harness,
            "--out", outdir, "--procs", str(procs), "--timeout", str(timeout), "--max-steps", str(max_steps),
            "--known", ",".join(known)]
     if export_smt:
         cmd += ["--export-smt", export_smt]
-    p = subprocess.run(cmd, cwd=C.VERIF, stdout=subprocess.PIPE, stderr=subprocess.PIPE, text=True)
+    env = dict(os.environ)
+    env["MIRSYM_SLOW"] = "%.2f" % SLOW["factor"]
+    p = subprocess.run(cmd, cwd=C.VERIF, stdout=subprocess.PIPE, stderr=subprocess.PIPE, text=True, env=env)
     sp = os.path.join(outdir, harness + ".summary.json")
     if not os.path.exists(sp):
         return {"harness": harness, "paths": 0, "complete": False, "violations": [], "samples": [], "status_counts": {},
